@@ -167,4 +167,24 @@ theorem DomProg.step {body : σ → Resume → Burst ℚ σ} (h : DomProg body) 
 theorem DomProg.run {body : σ → Resume → Burst ℚ σ} (h : DomProg body) (fuel : Nat) (s0 : KState ℚ σ) : DomRun body fuel s0 :=
   fun s _ => h.step fuel s
 
+/-! ## helpers for concrete runs -/
+
+theorem reach_of_iter {body : σ → Resume → Burst ℚ σ} {fuel : Nat} {s0 : KState ℚ σ} :
+    ∀ (n : Nat) (s : KState ℚ σ), Once.iter body fuel n s0 = some s → KReach body fuel s0 s
+  | 0, s, h => by simp only [Once.iter, Option.some.injEq] at h; subst h; exact KReach.init
+  | n + 1, s, h => by
+    simp only [Once.iter] at h
+    cases hn : Once.iter body fuel n s0 with
+    | none => rw [hn] at h; cases h
+    | some x =>
+      rw [hn] at h
+      exact KReach.step (reach_of_iter n x hn) h
+
+/-- in a state without a processed condition nothing is detached (a decidable sufficient condition) -/
+theorem not_gone_of_no_built {rem : List Cb} {s : KState ℚ σ} (d : EvId)
+    (h : ∀ a, a < s.events.size → isCond s a = true → (s.ev a).cbs.isSome = true) : ¬ Gone rem s d := by
+  rintro ⟨a, _, h1, h2, _⟩
+  have := h a (Once.lt_of_isCond s a h1) h1
+  rw [h2] at this; cases this
+
 end Cond
